@@ -66,13 +66,23 @@ def one_case(rng, runq, todo, rep, dim, quick, idx):
         kind = ["uniform-dyadic", "nonuniform", "shifted"][int(rng.integers(3))]
         xs_list.append(fd.grid(rng, m, kind))
     doms = [(float(x[0]), float(x[-1])) for x in xs_list]
+    explicit_dom = idx % 7 == 6          # an explicit spline domain wider than the grid (kwargs domain_min / domain_max)
+    if explicit_dom:
+        doms = [(a - 0.5, b + 0.25) for a, b in doms]
+    scalar_cfg = dim >= 2 and idx % 4 == 3   # one integer for all dimensions (n_segments=5, degree=3 style)
+    if scalar_cfg:
+        nsegs, degs = [nsegs[0]] * dim, [degs[0]] * dim
     shape = tuple(len(x) for x in xs_list)
     y = np.round(rng.normal(size=shape) * 16) / 16 + 1.0 + sum(
         np.sin(xs_list[k] - xs_list[k][0]).reshape([-1 if j == k else 1 for j in range(dim)]) for k in range(dim))
     y = np.round(y * 256) / 256
     y[y == 0] = 1 / 256
     lams = [float(2.0 ** int(rng.integers(-20, 21))) for _ in range(dim)]
+    default_pen = idx % 5 == 4           # penalty left to its default (1 in every dimension)
+    if default_pen:
+        lams = [1.0] * dim
     wkind = ["unit", "binary", "real"][idx % 3]
+    default_w = wkind == "unit" and idx % 2 == 1     # sample_weights left to its default (all ones)
     if wkind == "unit":
         w = np.ones(shape)
     elif wkind == "binary":
@@ -81,11 +91,19 @@ def one_case(rng, runq, todo, rep, dim, quick, idx):
         w = np.round(rng.uniform(0.25, 2.0, size=shape) * 8) / 8
 
     def make():
-        return PSplines(n_segments=nsegs[0] if dim == 1 else np.array(nsegs),
-                        degree=degs[0] if dim == 1 else np.array(degs), order_penalty=d)
+        return PSplines(n_segments=nsegs[0] if (dim == 1 or scalar_cfg) else np.array(nsegs),
+                        degree=degs[0] if (dim == 1 or scalar_cfg) else np.array(degs), order_penalty=d)
 
     def fitx(q, yy, ww):
-        q.fit(yy, xs_list[0] if dim == 1 else xs_list, sample_weights=ww, penalty=lams[0] if dim == 1 else tuple(lams))
+        kw = {}
+        if not (default_w and ww is w):
+            kw["sample_weights"] = ww
+        if not default_pen:
+            kw["penalty"] = lams[0] if dim == 1 else tuple(lams)
+        if explicit_dom:
+            kw["domain_min"] = [a for a, _ in doms]
+            kw["domain_max"] = [b for _, b in doms]
+        q.fit(yy, xs_list[0] if dim == 1 else xs_list, **kw)
         return q
 
     with warnings.catch_warnings():
@@ -96,7 +114,8 @@ def one_case(rng, runq, todo, rep, dim, quick, idx):
         H = np.asarray(ps.diagnostics["hat_matrix"], float)
         ypred_fit = np.asarray(ps.predict(xs_list[0] if dim == 1 else xs_list), float)
     opts = {"dim": dim, "n_segments": nsegs, "degree": degs, "order_penalty": d, "penalties": lams, "weights": wkind,
-            "shape": list(shape)}
+            "shape": list(shape), "defaults": {"weights": bool(default_w), "penalty": bool(default_pen)},
+            "scalar_configuration": bool(scalar_cfg), "explicit_domain": bool(explicit_dom)}
     key = (dim, tuple(nsegs), tuple(degs), d, tuple(lams), y.tobytes(), w.tobytes())
     replay = {**opts, "x": [C.hexf(x) for x in xs_list], "y": C.hexf(y), "w": C.hexf(w)}
     wf, yf = w.ravel(), y.ravel()
